@@ -47,6 +47,7 @@ POLICY = """
     <allow send_destination="com.example.A"/>
     <allow send_destination="com.example.B"/>
     <allow send_destination="com.example.T"/>
+    <allow send_destination="com.example.N"/>
   </policy>
 """
 
@@ -64,10 +65,15 @@ class Session(BusSession):
             self.method(l, 'RequestName', [R.S(wk(l)), R.U(0)])
         # the third party also eavesdrops on method calls: being handed a copy of a call must not make it a legitimate replier
         self.method('T', 'AddMatch', [R.S(b"eavesdrop='true',type='method_call'")])
-        for l in CLIENTS:
+        # N never negotiated descriptor passing: a descriptor-carrying call to it is refused by the bus (NotSupported); a
+        # call that was refused is not a call N may answer
+        self.bus.h.cmd('MKFD 1')
+        self.connect_slot('N', nofd=True)
+        self.method('N', 'RequestName', [R.S(wk('N')), R.U(0)])
+        for l in CLIENTS + ['N']:
             self.take(l)
         self.slots_model = []      # list of [caller, callee, serial, age_ms]
-        self.nextser = {l: 1000 for l in CLIENTS}
+        self.nextser = {l: 1000 for l in CLIENTS + ['N']}
 
     COUNTER_ATTRS = ('nextser',)
 
@@ -100,6 +106,16 @@ class Session(BusSession):
                     for s in REPLY_SERIALS:
                         for k in ('return', 'error'):
                             ops.append(['reply', x, y, s, k])
+        if self.is_open('A') and self.is_open('N'):
+            ops.append(['fdcall', 'A', 'N', SERIALS[0]])
+            for s in SERIALS:
+                ops.append(['reply', 'N', 'A', s, 'return'])
+        # a SIGNAL that carries a REPLY_SERIAL header field is not a reply: it uses up no slot (the call is still answered
+        # or NoReply'd later) and is delivered like any signal
+        for x, y in (('B', 'A'), ('T', 'A'), ('A', 'B')):
+            if self.is_open(x) and self.is_open(y):
+                for s in SERIALS:
+                    ops.append(['sigreply', x, y, s])
         for l in CLIENTS:
             if self.is_open(l):
                 ops.append(['disc', l])
@@ -213,6 +229,21 @@ class Session(BusSession):
             # refused on the recipient side: the caller is told, the callee sees nothing, and NO reply slot may exist
             w(x, ('buserr', b'org.freedesktop.DBus.Error.AccessDenied', s))
             self.hit('call-refused-by-receive-policy')
+            self.send(x, m)
+        elif kind == 'fdcall':
+            _, x, y, s = op
+            m = R.method_call(s, self.uname[y], '/c', 'c.i', 'Do', [(b'h', 0)])
+            m.fields.append((R.F_UNIX_FDS, (b'u', 1)))
+            w(x, ('buserr', b'org.freedesktop.DBus.Error.NotSupported', s))
+            self.hit('fd-call-to-recipient-without-fd-passing')
+            self.send(x, m, fds=[0])
+        elif kind == 'sigreply':
+            _, x, y, s = op
+            ser = self.fresh_serial(x)
+            m = R.signal(ser, '/c', 'c.i', 'Sig', [R.U(s)], dest=self.uname[y])
+            m.fields.append((R.F_REPLY_SERIAL, (b'u', s)))
+            w(y, ('msg', '@' + x, R.MT_SIGNAL, s))
+            self.hit('signal-with-reply-serial')
             self.send(x, m)
         elif kind == 'reply':
             _, x, y, s, k = op
